@@ -23,6 +23,7 @@ type SeqV struct {
 }
 
 type SV struct {
+	Ptr *Val   // lazy lvalue: address of a struct-typed value not yet loaded
 	V   *Val   // Go value (nil if pure sequence)
 	St  *State // state in which V's memory contents are to be read
 	Seq *SeqV
@@ -243,9 +244,25 @@ func constToSV(c *types.Const) *SV {
 }
 
 func (e *SpecEnv) eval(x ast.Expr) *SV {
+	return e.force(e.evalRaw(x))
+}
+
+// force loads a lazy lvalue.
+func (e *SpecEnv) force(sv *SV) *SV {
+	if sv == nil || sv.Ptr == nil {
+		return sv
+	}
+	et := sv.Ptr.T.Underlying().(*types.Pointer).Elem()
+	st := e.stateOf(sv)
+	return &SV{V: e.g.loadQuiet(st, sv.Ptr, et), St: st}
+}
+
+func isStructT(t types.Type) bool { _, ok := t.Underlying().(*types.Struct); return ok }
+
+func (e *SpecEnv) evalRaw(x ast.Expr) *SV {
 	switch n := x.(type) {
 	case *ast.ParenExpr:
-		return e.eval(n.X)
+		return e.evalRaw(n.X)
 	case *ast.BasicLit:
 		switch n.Kind {
 		case token.INT:
@@ -312,14 +329,25 @@ func (e *SpecEnv) eval(x ast.Expr) *SV {
 								return sv
 							}
 						}
+						if oo, ok := o.(*types.Var); ok {
+							r := e.g.globalRef(oo.Pkg().Path() + "." + oo.Name())
+							gp := &Val{T: types.NewPointer(oo.Type()), L: []*Term{r}, Addr: &AddrInfo{Root: oo.Type(), Known: true}}
+							return &SV{V: e.g.loadQuiet(e.cur, gp, oo.Type()), St: e.cur}
+						}
 					}
 					e.fail("unsupported package member %s.%s", id.Name, n.Sel.Name)
 					return nil
 				}
 			}
 		}
-		base := e.eval(n.X)
-		if base == nil || base.V == nil {
+		base := e.evalRaw(n.X)
+		if base == nil {
+			return nil
+		}
+		if base.Ptr != nil {
+			return e.selectField(&SV{V: base.Ptr, St: base.St}, n.Sel.Name)
+		}
+		if base.V == nil {
 			return nil
 		}
 		return e.selectField(base, n.Sel.Name)
@@ -365,6 +393,9 @@ func (e *SpecEnv) eval(x ast.Expr) *SV {
 				_ = has
 				return &SV{V: v, St: e.stateOf(b)}
 			}
+		}
+		if b.V != nil && b.Seq == nil && isSlice(b.V.T) && isStructT(b.V.T.Underlying().(*types.Slice).Elem()) {
+			return &SV{Ptr: elemAddr(b.V, i.V.L[0]), St: e.stateOf(b)}
 		}
 		s := e.toSeq(b)
 		if s == nil {
@@ -436,7 +467,7 @@ func (e *SpecEnv) selectField(base *SV, name string) *SV {
 	}
 	cur := v
 	curT := t
-	for _, ix := range idxs {
+	for k, ix := range idxs {
 		if pt, isP := curT.Underlying().(*types.Pointer); isP {
 			// address of field
 			stt := pt.Elem()
@@ -448,6 +479,15 @@ func (e *SpecEnv) selectField(base *SV, name string) *SV {
 				nv.Addr = &a
 			} else {
 				nv.Addr = &AddrInfo{Known: false}
+			}
+			if isStructT(ft) {
+				// stay lazy: keep the address
+				cur = nv
+				curT = nv.T
+				if k == len(idxs)-1 {
+					return &SV{Ptr: nv, St: st}
+				}
+				continue
 			}
 			cur = e.g.loadQuiet(st, nv, ft)
 			curT = ft
@@ -541,7 +581,11 @@ func (e *SpecEnv) freshBound(hint string) *Term {
 func (e *SpecEnv) seqEq(a, b *SeqV) *Term {
 	lenEq := Eq(a.Len, b.Len)
 	k := e.freshBound("seq")
+	var captured []*Term
+	saveCap := e.g.factCapture
+	e.g.factCapture = &captured
 	av, bv := a.At(k), b.At(k)
+	e.g.factCapture = saveCap
 	var elemEq []*Term
 	n := len(av.L)
 	if len(bv.L) < n {
@@ -555,9 +599,10 @@ func (e *SpecEnv) seqEq(a, b *SeqV) *Term {
 	body := Implies(And(Le(Int(0), k), Lt(k, a.Len)), And(elemEq...))
 	if e.goal {
 		// skolem constant (the solver picks the distinguishing index)
+		e.g.releaseFacts(captured)
 		return And(lenEq, body)
 	}
-	return And(lenEq, Forall([]*Term{k}, body))
+	return And(lenEq, Forall([]*Term{k}, Implies(And(captured...), body)))
 }
 
 func (e *SpecEnv) evalBinary(n *ast.BinaryExpr) *SV {
@@ -815,24 +860,28 @@ func (e *SpecEnv) evalCall(n *ast.CallExpr) *SV {
 		ne := e.clone()
 		ne.vars[id.Name] = svInt(k)
 		ne.vars[id.Name].V.T = types.Typ[types.Int]
+		var captured []*Term
+		saveCap := e.g.factCapture
+		e.g.factCapture = &captured
 		body := ne.eval(n.Args[3])
+		e.g.factCapture = saveCap
 		e.errs = append(e.errs, ne.errs...)
 		if body == nil {
 			return nil
 		}
 		rng := And(Le(lo.V.L[0], k), Lt(k, hi.V.L[0]))
 		if name == "forall" {
-			f := Implies(rng, body.V.L[0])
 			if e.goal {
-				return svBool(f) // skolemised
+				e.g.releaseFacts(captured)
+				return svBool(Implies(rng, body.V.L[0])) // skolemised
 			}
-			return svBool(Forall([]*Term{k}, f))
+			return svBool(Forall([]*Term{k}, Implies(And(rng, And(captured...)), body.V.L[0])))
 		}
-		f := And(rng, body.V.L[0])
 		if !e.goal {
-			return svBool(f) // witness constant
+			e.g.releaseFacts(captured)
+			return svBool(And(rng, body.V.L[0])) // witness constant
 		}
-		return svBool(Exists([]*Term{k}, f))
+		return svBool(Exists([]*Term{k}, And(rng, And(captured...), body.V.L[0])))
 	case "cat":
 		var parts []*SeqV
 		for i := range n.Args {
@@ -953,6 +1002,20 @@ func (e *SpecEnv) evalCall(n *ast.CallExpr) *SV {
 			return nil
 		}
 		return svBool(And(Eq(a.V.Len(), b.V.Len()), Or(Eq(a.V.Len(), Int(0)), And(Eq(a.V.Arr(), b.V.Arr()), Eq(a.V.Off(), b.V.Off())))))
+	case "samearray":
+		a, b := arg(0), arg(1)
+		if a == nil || b == nil || a.V == nil || b.V == nil || !isSlice(a.V.T) || !isSlice(b.V.T) {
+			e.fail("samearray needs two slices")
+			return nil
+		}
+		return svBool(Eq(a.V.Arr(), b.V.Arr()))
+	case "arrayof":
+		a := arg(0)
+		if a == nil || a.V == nil || !isSlice(a.V.T) {
+			e.fail("arrayof needs a slice")
+			return nil
+		}
+		return svInt(a.V.Arr())
 	case "samecap":
 		a, b := arg(0), arg(1)
 		if a == nil || b == nil {
@@ -1004,8 +1067,12 @@ func (e *SpecEnv) evalCall(n *ast.CallExpr) *SV {
 		op := map[string]string{"prefixof": "str.prefixof", "suffixof": "str.suffixof", "contains": "str.contains"}[name]
 		return svBool(mk(op, SBool, a.V.L[0], b.V.L[0]))
 	}
-	// spec macro?
-	if m, ok := e.g.eng.contracts.macros[name]; ok {
+	// spec macro? (macros are global; a package qualifier is ignored)
+	mname := name
+	if i := strings.LastIndex(mname, "."); i >= 0 {
+		mname = mname[i+1:]
+	}
+	if m, ok := e.g.eng.contracts.macros[mname]; ok {
 		if e.depth > 20 {
 			e.fail("macro recursion too deep: %s", name)
 			return nil
@@ -1057,4 +1124,16 @@ func (e *SpecEnv) evalCall(n *ast.CallExpr) *SV {
 	}
 	e.fail("unknown contract function %s", name)
 	return nil
+}
+
+// releaseFacts: facts about a skolem/witness constant are ordinary global
+// facts (or go to the enclosing capture when nested in another binder).
+func (g *gen) releaseFacts(fs []*Term) {
+	for _, f := range fs {
+		if g.factCapture != nil {
+			*g.factCapture = append(*g.factCapture, f)
+		} else {
+			g.baseFacts = append(g.baseFacts, f)
+		}
+	}
 }
